@@ -242,6 +242,17 @@ def shape_ops_case(cls, dim, sx, seed):
                         return cnt, ("len.rank0", "len() of a unit object did not raise TypeError")
                     except TypeError:
                         pass
+                # combine: flatten everything and concatenate (units and their order, primary and derived data)
+                for (s2, exp) in rec["combines"]:
+                    n2 = size(s2)
+                    idsY = [rng.randrange(K) + 1 for _ in range(n2)]
+                    Y, _ = cc.build(TABS, cls, dim, tuple(s2), idsY)
+                    cnt += 1
+                    allids = ids + idsY
+                    bad = cc.check_object(TABS, cc.lib_class(cls).combine([X, Y]), cls, dim, tuple(exp["shape"]),
+                                          [allids[c - 1] for c in exp["cell"]], recompute=False)
+                    if bad:
+                        return cnt, ("combine([X, Y%r]):" % (tuple(s2),) + bad[0], bad[1])
                 X2, _ = cc.build(TABS, cls, dim, sx, ids2)
                 cnt += 1
                 st2 = rec["stack2"]
@@ -380,6 +391,26 @@ def _ops():
         e = x.get_edges()
         return {"edges.proj_data": ("num", e.proj_data), "edges.aux_data": ("num", e.aux_data),
                 "vertices(poincare)": ("num", x.get_vertices().coords(M.POINCARE))}
+
+    for tag, m in (("poincare", M.POINCARE), ("halfspace", M.HALFSPACE)):
+        for cname in ("Horosphere", "HoroArc"):
+            def f(x, m=m):
+                c, r = H.Horosphere.sphere_parameters(x, m)
+                return {"center": ("num", c), "radius": ("num", r), "center_coords": ("num", x.center_coords(m)),
+                        "ref_coords": ("num", x.ref_coords(m))}
+            ops["%s.sphere_parameters(%s)" % (cname, tag)] = (cname, 1, None, f, (2, 3))
+    for tag, deg, m, kind in (("poincare,deg", True, M.POINCARE, "ang360"), ("halfspace,rad", False, M.HALFSPACE, "ang2pi")):
+        def f(x, deg=deg, m=m, kind=kind):
+            c, r, th = x.circle_parameters(model=m, degrees=deg)
+            return {"center": ("num", c), "radius": ("num", r), "thetas": (kind, th), "endpoint_coords": ("num", x.endpoint_coords(m))}
+        ops["HoroArc.circle_parameters(%s)" % tag] = ("HoroArc", 1, None, f, (2,))
+    # boundary arcs are documented for the Poincare and Klein models
+    for tag, deg, m, kind in (("poincare,deg", True, M.POINCARE, "ang360"), ("klein,rad", False, M.KLEIN, "ang2pi")):
+        def g(x, deg=deg, m=m, kind=kind):
+            a, b = x.get_end_pair(as_points=True)
+            c, r, th = H.BoundaryArc(a, b).circle_parameters(model=m, degrees=deg)
+            return {"center": ("num", c), "radius": ("num", r), "thetas": (kind, th)}
+        ops["BoundaryArc(Geodesic ends).circle_parameters(%s)" % tag] = ("Geodesic", 1, None, g, (2,))
 
     @op("Isometry.fixed_points", "Isometry")
     def _(x):
@@ -589,6 +620,22 @@ def sl2_case(dim, s, seed):
         bad = compare_part("num", R, U.reshape(R.shape))
         if bad:
             return (name + ".value", bad)
+    # the complex maps, on arrays of elements of SL(2, Z[i])
+    cids = [rng.randrange(len(TABS.sl2c)) for _ in range(size(s))]
+    carr = np.stack([TABS.sl2c[i] for i in cids]).reshape(tuple(s) + (2, 2))
+    cmaps = {"lie.sl2c_to_so31": (lambda a: lie.sl2c_to_so31(a)), "lie.sl2c_herm_action": (lambda a: lie.sl2c_herm_action(a)),
+             "lie.slc_to_slr": (lambda a: lie.slc_to_slr(a)), "lie.sl2_irrep(3) complex": (lambda a: lie.sl2_irrep(a, 3))}
+    for name, f in cmaps.items():
+        try:
+            R = np.asarray(f(carr.copy()))
+            U = np.stack([np.asarray(f(TABS.sl2c[i].copy())) for i in cids])
+        except Exception as e:
+            return (name + ".raised", "%s: %s" % (type(e).__name__, e))
+        if tuple(R.shape) != tuple(s) + U.shape[1:]:
+            return (name + ".shape", "%r, spec %r + per-unit %r" % (tuple(R.shape), tuple(s), U.shape[1:]))
+        bad = compare_part("num", R, U.reshape(R.shape))
+        if bad:
+            return (name + ".value", bad)
     o = H.Isometry.from_sl2(arr)
     if tuple(o.shape) != tuple(s):
         return ("from_sl2.shape", "%r, spec %r" % (tuple(o.shape), tuple(s)))
@@ -690,7 +737,11 @@ def run(run, replay=None):
     run.assumptions += [
         "composite shapes of rank 0..3 with dimensions in {1,2,3} (40 shapes) for objects and for transformations",
         "classes: projective Point, PointPair, Polygon(aux rank 3), Transformation; hyperbolic Point, Geodesic, "
-        "Segment(aux rank 2), TangentVector(aux rank 2), Polygon(aux rank 3), Isometry; dimensions 2 and 3",
+        "Segment(aux rank 2), TangentVector(aux rank 2), Polygon(aux rank 3), Isometry, Horosphere, HorosphereArc (units "
+        "on horospheres based at different ideal points); BoundaryArc built from composite end points; dimensions 2 and 3",
+        "a segment's two ideal endpoints are compared in order (first the one beyond end point 0)",
+        "the SL(2) maps: sl2_to_so21, from_sl2, sl2_iso, sl2_irrep on SL(2,Z) and sl2c_to_so31, sl2c_herm_action, "
+        "slc_to_slr, sl2_irrep on SL(2,Z[i]), arrays of every shape of rank <= 3",
         "payloads are the exact integer units of CompUnits.tla (5 base units per class, 5 transformations)",
         "ConvexPolygon (composite use documented as unsupported), Polygon.circle_parameters (raises TypeError for unit "
         "and composite objects alike on the pinned tree) and the scalar-only o_to_pgl are not covered",
@@ -771,7 +822,9 @@ def run(run, replay=None):
     for (n, viol, sample, per) in pool_map(query_chunk, cases, run.seed, nproc):
         tot += n
         for ctx, bad in viol:
-            run.violation("query:%(op)s:dim%(dim)d:%(sx)s:%(sy)s" % ctx, "query:" + bad[0], dict(case=ctx, observed=bad[1]))
+            # a call that raises for composites of every shape is one finding: its key does not carry the shape
+            key = ("query:%(op)s:raised" % ctx) if bad[0] == "raised" else ("query:%(op)s:dim%(dim)d:%(sx)s:%(sy)s" % ctx)
+            run.violation(key, "query:" + bad[0], dict(case=ctx, observed=bad[1]))
         if sample:
             run.sample(sample)
         for m, k in per.items():
